@@ -22,16 +22,16 @@ func init() { register(c17{}) }
 func (c17) ID() string    { return "C17" }
 func (c17) Level() string { return "exploration" }
 func (c17) Rule() string {
-	return "full condition grid. Publish: topic {empty, non-empty} x topic alias {0,1,65535} x QoS {0,1,2,3} x packet identifier {0,1,65535} x DUP x RETAIN, each cell with random other fields, built through the API and (where the wire can express the cell) decoded from a reference-encoded frame. Subscribe: filter count 0..3 x subscription identifier {unset,1,268435454,268435455,268435456,MaxInt32} x ALL 256 option bytes in each filter position x filter {empty, non-empty}; TopicFilter alone over 256 x 2. Oracle: the predicate transcribed from the property statement, written independently; the 'malformed!' suffix of String() must appear exactly when WellFormed() is non-nil. distinct = grid cell (+ construction path); non-trivial = all"
+	return "full condition grid. Publish: topic {empty, non-empty} x topic alias {0,1,65535} x QoS {0,1,2,3} x packet identifier {0,1,65535} x DUP x RETAIN, each cell with random other fields, built through the API and (where the wire can express the cell) decoded from a reference-encoded frame. Subscribe: filter count 0..3 x subscription identifier {unset,1,268435454,268435455,268435456,MaxInt32,2^32,2^32+39,MaxInt64} x ALL 256 option bytes in each filter position x filter {empty, non-empty}; TopicFilter alone over 256 x 2. Oracle: the predicate transcribed from the property statement, written independently; the 'malformed!' suffix of String() must appear exactly when WellFormed() is non-nil. distinct = grid cell (+ construction path); non-trivial = all"
 }
 func (c17) Assumptions() []string {
 	return []string{"generated strings never contain the text 'malformed!'"}
 }
 func (c17) Exhaustive(env run.Env) (bool, string) {
-	return true, "the whole condition grid named in the rule (288 Publish cells, 6 x (1 + 512 + 2*512 + 3*512) Subscribe cells, 512 TopicFilter cells)"
+	return true, "the whole condition grid named in the rule (288 Publish cells, 9 x (1 + 512 + 2*512 + 3*512) Subscribe cells, 512 TopicFilter cells)"
 }
 
-var c17SubIDs = []int{-1, 1, 268435454, 268435455, 268435456, math.MaxInt32}
+var c17SubIDs = []int{-1, 1, 268435454, 268435455, 268435456, math.MaxInt32, 1<<32 + 39, 1 << 32, math.MaxInt64}
 
 func (c17) Phases(env run.Env) []run.Phase {
 	return []run.Phase{{Name: "publish-grid", N: 288}, {Name: "subscribe-grid", N: 4 * len(c17SubIDs) * 2}, {Name: "topic-filter", N: 2}}
@@ -136,6 +136,11 @@ func (c17) Run(c *run.Ctx, phase, idx int) {
 					}
 				},
 				func() {
+					for k := r.Intn(3); k > 0; k-- {
+						p.AddSubscriptionID(gen.VBI(r))
+					}
+				},
+				func() {
 					if r.Bool() {
 						p.SetResponseTopic(word(r))
 						p.SetContentType(word(r))
@@ -157,6 +162,9 @@ func (c17) Run(c *run.Ctx, phase, idx int) {
 				}
 				if r.Bool() {
 					a.Props = append(a.Props, ref.Prop{ID: 0x26, S: word(r), V: word(r)})
+					for k := r.Intn(3); k > 0; k-- {
+						a.Props = append(a.Props, ref.Prop{ID: 0x0b, N: gen.VBI(r)})
+					}
 					a.Props = gen.Permute(r, a.Props)
 				}
 				if r.Bool() {
